@@ -1,5 +1,6 @@
 """C06 — lifecycle: setup once, iterations, LIFO cleanups exactly once, teardown last."""
 from . import _scn
+from ..core import hx
 ID = "C06"
 PROPS = ["F1Verif.Props.C06", "F1Verif.Props.FactsC06"]
 ALSO = ["F1Verif.Props.Handle"]
@@ -34,6 +35,10 @@ def corpus():
         "run prop=C06 mode=constant rate=4/100ms dur=400 conc=3 body=30 failevery=2 trackcleanup=1",
         "run prop=C06 mode=users conc=2 dur=300 body=2 maxit=15 pushgw=down trackcleanup=1",        # the metrics gateway is down: lifecycle unchanged
         "run prop=C06 mode=users conc=2 dur=300 body=2 maxit=15 pushgw=fail1 setupcleanups=3",
+        # a failing setup while the scenario log file cannot be opened: reported failed, no iteration, no crash
+        "cli mode=users dur=%s conc=2 bodyms=5 setupfail=1 logfile=bad" % hx("200ms"),
+        "cli mode=users dur=%s conc=2 bodyms=5 setupfail=2 logfile=bad" % hx("200ms"),
+        "cli mode=users dur=%s conc=2 bodyms=5 tdfail=2 logfile=bad" % hx("200ms"),
     ]
 
 
@@ -49,8 +54,17 @@ def generate(rng, tier):
     return out
 
 
+def compare(rec):
+    if rec["case"].startswith("cli "):
+        from . import _plan
+        return _plan.cli_compare(rec)
+    if rec["model"] == "-":
+        return None
+    return None if rec["impl"] == rec["model"] else "model=%s impl=%s" % (rec["model"], rec["impl"])
+
+
 def nontrivial_key(rec):
-    if rec["case"].startswith("run "):
+    if rec["case"].startswith(("run ", "cli ")):
         return rec["case"]
     f = _scn.features(rec["case"]) if rec["case"].startswith("scn ") else {"x"}
     if f & {"body_registers_2plus", "body_stops", "setup_stops", "cleanup_stops", "setup_registers"}:
